@@ -142,6 +142,26 @@ class Conditioned(nn.Module):
         return self.base.h(t, y)
 
 
+class Renamed(nn.Module):
+    """`base` (an nn.Module with parameters) exposing drift / diffusion (/ prior drift) as mu / sigma (/ prior) only:
+    to be used with names={'drift': 'mu', 'diffusion': 'sigma', 'prior_drift': 'prior'}."""
+    NAMES = {"drift": "mu", "diffusion": "sigma", "prior_drift": "prior"}
+
+    def __init__(self, base):
+        super().__init__()
+        self.base = base
+        self.noise_type, self.sde_type, self.m = base.noise_type, base.sde_type, base.m
+
+    def mu(self, t, y):
+        return self.base.f(t, y)
+
+    def sigma(self, t, y):
+        return self.base.g(t, y)
+
+    def prior(self, t, y):
+        return self.base.h(t, y)
+
+
 class Plain:
     """An SDE object that is not an nn.Module (f and g given as callables)."""
 
